@@ -12,7 +12,7 @@ from ..engine import Space
 PROPERTY = "C18"
 LEVEL = "model_checking"
 VARIANTS = ["asan"]
-RULE = ("all histories of <=2 (quick) / <=3 (thorough) calls over 28 call kinds after create(full, 50 ms limit) on one instance, with a status "
+RULE = ("all histories of <=2 (quick) / <=3 (thorough) calls over 33 call kinds after create(full, 50 ms limit) on one instance, with a status "
         "probe after every call; two-instance interleavings of 2 calls each; creation variants (full/basic/empty); invalid handles (NULL, foreign "
         "memory, destroyed); states = (globals set, config loaded, instance age) contexts reached, transitions = API calls; non-trivial = history "
         "contains a failing or limit-hitting call before another call")
@@ -46,6 +46,13 @@ CALLS = {
     # macro definitions belong to the call that makes them: GV / ApiCfg below are plain names in every other call
     "define-macro": ("s", '#define GV 9\n#define ApiCfg Nope\ndiag_log "dm"', 0, ["dm"]),
     "pp-only-define": ("p", "#define GV 9\n#define diag_log hint\nGV", 0, []),
+    # code run by __EVAL that does not come to an end inside the evaluation (a script it spawns, the rest of an expression
+    # that failed half-way) must not wait for - and run under the call data of - a later call: GV stays unset
+    "pp-eval-spawn": ("p", "__EVAL([] spawn { GV = 5 }; 1)", 0, []),
+    "pp-eval-error-midway": ("p", 'A __EVAL(1 + "x"; GV = 5; 7) B', 0, []),
+    "eval-error-midway": ("s", '__EVAL(1 + "x"; GV = 5; 7) diag_log "eem"', 0, ["eem"]),
+    "cfg-eval-spawn": ("cfg", "class ES { v = __EVAL([] spawn { GV = 5 }; 1); };", 0, []),
+    "parse-error-eval-spawn": ("s", "x = ; __EVAL([] spawn { GV = 5 }; 1)", -3, []),
     "unknown-type": ("x", "1", -5, []),
     "assembly-bad": ("a", "this is not assembly", -3, []),
     "assembly-bad-char": ("a", "push 1 endStatement; ? $", -3, []),
@@ -57,6 +64,7 @@ CALLS = {
     "load-config-pp-bad": ("cfg", '#include "nope.hpp"', -2, []),
 }
 KINDS = list(CALLS)
+EVAL_FAILS = ("pp-eval-error-midway", "eval-error-midway")   # the failure inside __EVAL is reported (fatal stack trace); whether the call then counts as failed is not fixed
 
 
 def gen_hist(depth):
@@ -115,7 +123,7 @@ def judge_call(kind, step_res, status_res, ud, cd, gv_set, cfg_loaded, tag, case
         return [("C18|%s|logging-incomplete-or-foreign|%s" % (kind, context), "%s: call %s delivered diag_log payloads %r, expected %r" % (tag, kind, got_logs, want), None, case)]
     if code == -6 and ty == "s" and kind not in ("nonterminating", "sleeper-past-limit") and not any(c["sev"] <= 1 for c in cbs):
         return [("C18|%s|error-not-logged|%s" % (kind, context), "%s: failing call %s delivered no error-level diagnostic" % (tag, kind), None, case)]
-    if code == 0 and ty in ("s", "p") and any(c["sev"] == 0 for c in cbs):
+    if code == 0 and ty in ("s", "p") and kind not in EVAL_FAILS and any(c["sev"] == 0 for c in cbs):
         return [("C18|%s|fatal-diagnostic-on-success|%s" % (kind, context), "%s: successful call %s delivered a fatal diagnostic: %r" % (tag, kind, [c["msg"][:80] for c in cbs if c["sev"] == 0][:1]), None, case)]
     return v
 
